@@ -8,7 +8,7 @@ from ..loader import AnalysisError
 from ..report import rule
 from ..resolve import Resolver
 from ..terms import App, Attr, Comp, Idx, Poly, Range, Slc, Sym, Tup
-from .common import Flow, bind_args, calls_to, short, unparse
+from .common import Flow, bind_args, call_arg, calls_to, ctor_args, short, unparse
 from .plumb import FRONT_ENDS, UA, bundle_ctor_calls, plumb
 
 STACK1 = "fast_ticc.data_preparation.stack_training_data"
@@ -200,7 +200,7 @@ def r3(ctx):
         feeding = next((c for c in ctors if c.node is arg), None)
     if feeding is None:
         raise AnalysisError("the bundle passed to fit_stacked_data is not a single UserArguments(...) construction")
-    v = next((k.value for k in feeding.node.keywords if k.arg == "label_switching_cost"), None)
+    v = ctor_args(ana, feeding).get("label_switching_cost")
     if v is None:
         ctx.fail(fe, "UserArguments is built without label_switching_cost", line=feeding.node.lineno, role="masked-price")
         return
@@ -244,7 +244,8 @@ def r4(ctx):
     bb = ana.builder(fe, no_inline=ana.known)
     cs = calls_to(ana, fe, ana.func(MASK).qualname)
     for c in cs:
-        t = bb.term(c.node.args[0]) if c.node.args else None
+        a0 = call_arg(ana, c, ana.func(MASK).params[0], pos=0)
+        t = bb.term(a0) if a0 is not None else None
         ok = isinstance(t, Comp) and not t.conds
         if ok:
             ok = False
